@@ -21,6 +21,7 @@ class spec:
 type expression (texpr):
   "int" | "str" | "float" | "bool" | "date" | "path" | "any"
   ["opt", T] | ["list", T] | ["dict", T] | ["union", T1, T2, ...] | ["cls", name]
+  ["dictk", name, T]    # Dict[<string-like class>, T]
 
 value (tagged JSON):
   {"k":"int","v":3} {"k":"float","v":"1.5"} {"k":"str","v":".."} {"k":"bool","v":true}
@@ -45,6 +46,7 @@ GEN_PREFIX = '<simgen:'
 
 _PRELUDE = '''\
 import abc
+import dataclasses
 import enum
 from collections import OrderedDict, UserString
 from datetime import date
@@ -68,6 +70,8 @@ def ann_src(t):
         return 'List[{}]'.format(ann_src(t[1]))
     if k == 'dict':
         return 'Dict[str, {}]'.format(ann_src(t[1]))
+    if k == 'dictk':
+        return 'Dict[{}, {}]'.format(t[1], ann_src(t[2]))
     if k == 'union':
         return 'Union[{}]'.format(', '.join(ann_src(x) for x in t[1:]))
     if k == 'cls':
@@ -171,6 +175,16 @@ def class_source(spec, c):
         sig.append('_yatiml_extra: OrderedDict')
     for p in opt:
         sig.append('{}: {} = {}'.format(p['n'], ann_src(p['t']), _lit(p['d']['v'])))
+    if c.get('dc') and not c.get('base') and not c.get('extra') and kind == 'regular':
+        # a dataclass: __init__ is generated, the seam call sits in __post_init__
+        L.insert(len(L) - 1, '@dataclasses.dataclass')
+        for p in req:
+            L.append('    {}: {}'.format(p['n'], ann_src(p['t'])))
+        for p in opt:
+            L.append('    {}: {} = {}'.format(p['n'], ann_src(p['t']), _lit(p['d']['v'])))
+        L.append('    def __post_init__(self) -> None:')
+        L.append('        _sim.cb("init", {!r})'.format(uid))
+        return _class_tail(L, spec, c, uid, ps, req)
     L.append('    def __init__({}) -> None:'.format(', '.join(sig)))
     L.append('        _sim.cb("init", {!r})'.format(uid))
     if c.get('base'):
@@ -186,6 +200,11 @@ def class_source(spec, c):
         L.append('        self._yatiml_extra = _yatiml_extra')
     if not c.get('params') and not c.get('extra') and not c.get('base'):
         L.append('        pass')
+    return _class_tail(L, spec, c, uid, ps, req)
+
+
+def _class_tail(L, spec, c, uid, ps, req):
+    """_yatiml_defaults and the hooks of a regular/abstract/dataclass class."""
     if c.get('defaults_override'):
         L.append('    _yatiml_defaults = {}'.format(_lit(c['defaults_override'])))
     sav = c.get('sav')
@@ -294,6 +313,8 @@ class Namespace:
             return List[self.type_of(t[1])]
         if k == 'dict':
             return Dict[str, self.type_of(t[1])]
+        if k == 'dictk':
+            return Dict[self.classes[t[1]], self.type_of(t[2])]
         if k == 'union':
             return Union[tuple(self.type_of(x) for x in t[1:])]
         if k == 'cls':
